@@ -83,7 +83,9 @@ def _check_invariant(fit, snap, ref, names, free, tag, after_exception=False):
     fidx = [names.index(nm) for nm in free]
     # "unchanged up to the minimizer tolerance": a minimiser that stops within 1e-3 in cost of the minimum is within 0.045 sigma of it
     if np.any(np.abs(p - snap["p"])[fidx] > 0.05 * sd[fidx]) or np.any(p[[i for i in range(len(names)) if i not in fidx]] != snap["p"][[i for i in range(len(names)) if i not in fidx]]):
-        raise Violation(f"values-moved{suffix}", f"{tag}: parameter values {snap['p'].tolist()} -> {p.tolist()} (sigma {snap['e'].tolist()})")
+        # bug model of KF-C08-1: do_fit itself stopped above the minimum (KF-C06-1) and the query's re-minimisation found the better point
+        lower = ":to-lower-cost" if c < snap["cost"] - 1e-3 and np.all(p[[i for i in range(len(names)) if i not in fidx]] == snap["p"][[i for i in range(len(names)) if i not in fidx]]) else ""
+        raise Violation(f"values-moved{lower}{suffix}", f"{tag}: parameter values {snap['p'].tolist()} -> {p.tolist()} (sigma {snap['e'].tolist()}); cost {snap['cost']!r} -> {c!r}")
     if abs(c - snap["cost"]) > 1e-2:
         raise Violation(f"cost-moved{suffix}", f"{tag}: cost {snap['cost']!r} -> {c!r}")
     # scipy backend: the covariance is recomputed with numdifftools at the (within the minimizer tolerance) restored point; its step-size noise is a few per cent
@@ -280,7 +282,11 @@ def run(case):
 
 
 # The scipy backend's generic asymmetric-error search (KF-C07-1) can also leave the fit at an excursion point when an inner step raises.
-KNOWN = {}
+KNOWN = {
+    # consequence of KF-C06-1 (scipy backend + a parameter limit: L-BFGS-B stops above the minimum): a later query that re-minimises (asymmetric errors, profile,
+    # contour) lands on the better point and leaves the fit there.  Signature: scipy AND limits AND the move went to a cost lower by more than 1e-3
+    "KF-C08-1": lambda sub, case, v: case["spec"].get("minimizer") == "scipy" and bool(case["spec"].get("limits")) and v.facet.startswith("values-moved:to-lower-cost"),
+}
 
 SUBS = [
     Sub("queries", lambda tier: strat(tier), run, quick=640, thorough=8000, about="post-fit query histories with state invariant against the post-fit snapshot"),
